@@ -135,6 +135,7 @@ type env struct {
 	values map[types.SiacoinOutputID]types.Currency
 	txns   map[int]*ftxn
 	uniq   int
+	lagging int // empty blocks the manager has and the wallet's store has not processed yet
 	nextH  int
 
 	epochStart time.Time
@@ -388,4 +389,18 @@ func (e *env) inPoolNow(t *ftxn) bool {
 func (e *env) unique(tag string) []byte {
 	e.uniq++
 	return []byte(fmt.Sprintf("%s%06d", tag, e.uniq))
+}
+
+// storeHeight is the height the wallet has scanned to (the manager may be ahead).
+func (e *env) storeHeight() uint64 {
+	tip, err := e.ws.Tip()
+	must(err)
+	return tip.Height
+}
+
+// storeTip is the basis of the elements the store hands out.
+func (e *env) storeTip() types.ChainIndex {
+	tip, err := e.ws.Tip()
+	must(err)
+	return tip
 }
